@@ -77,6 +77,8 @@ def gen_history(rng, kind, size):
         return profile, ops
     for _ in range(size):
         r = rng.random()
+        if rng.random() < 0.05:
+            ops.append(rng.choice((["cycle", 0.0], ["cycle", 2.5], ["start_again"], ["start_again"])))
         if profile == "lossy":
             # the server's own stream 0,1,2,... through a lossy, duplicating, reordering channel
             if r < 0.70:
@@ -148,11 +150,13 @@ class Ref:
 BURSTS = ([0], [0, 1], [0, 0, 1], [0, 1, 2], [0, 1, 1, 2], [1], [0, 2, 1], [255, 0])
 
 
-def run_history(kind, ops, route_back=False, gw_route_back=False, burst=None, burst_seed=0):
+def run_history(kind, ops, route_back=False, gw_route_back=False, burst=None, burst_seed=0, auto_reconnect=True,
+                channel_policy="increasing"):
     """Deliver one history to the real endpoint; returns (injections, acks, callbacks, error, log)."""
     loop = new_loop()
     gw = Gateway(loop)
     gw.data_endpoint_route_back = gw_route_back
+    gw.channel_policy = channel_policy
     ref = Ref()
     injections = []
     box = {"tag": 0}
@@ -207,8 +211,17 @@ def run_history(kind, ops, route_back=False, gw_route_back=False, burst=None, bu
         reconnect = None
         if kind == "tunnel":
             ep = UDPTunnel(XKNX(), cemi_received_callback=cb_raw, gateway_ip="10.0.0.2", gateway_port=3671,
-                           local_ip="10.0.0.1", route_back=route_back, auto_reconnect=True, auto_reconnect_wait=1)
+                           local_ip="10.0.0.1", route_back=route_back, auto_reconnect=auto_reconnect, auto_reconnect_wait=1)
             await ep.connect()
+            if not auto_reconnect:
+                async def reconnect():  # the user connects the SAME tunnel object again
+                    gw.note("user_connect_again")
+                    for _ in range(5):
+                        try:
+                            await ep.connect()
+                            return
+                        except CommunicationError:
+                            await asyncio.sleep(1)
         elif kind == "devconn":
             ep = UDPDeviceManagementConnection(gateway_ip="10.0.0.2", gateway_port=3671, local_ip="10.0.0.1",
                                                route_back=route_back, indication_callback=cb_ind)
@@ -257,6 +270,27 @@ def run_history(kind, ops, route_back=False, gw_route_back=False, burst=None, bu
             if not await ensure_established():
                 gw.note("never_reestablished")
                 break
+            if op[0] == "cycle":  # object reuse: the user closes the connection and opens it again on the same object
+                gw.note("user_cycle")
+                ref.established = False
+                if kind == "devmgmt":
+                    await reconnect()
+                else:
+                    await ep.disconnect()
+                    await asyncio.sleep(op[1])
+                    try:
+                        await ep.connect()
+                    except CommunicationError:
+                        pass
+                continue
+            if op[0] == "start_again":  # a redundant start() on a running handler is documented as a no-op
+                if kind == "devmgmt":
+                    gw.note("redundant_start")
+                    ep.start()
+                elif kind == "tunnel":
+                    gw.note("heartbeat_restart")
+                    ep.start_heartbeat()
+                continue
             if op[0] == "disc":
                 ref.established = False
                 if kind == "devmgmt":
@@ -375,9 +409,11 @@ def judge(injections, acks, cbs):
     return problems
 
 
-def judge_history(ctx, kind, profile, ops, sample=False, route_back=False, gw_route_back=False, burst=None, burst_seed=0):
+def judge_history(ctx, kind, profile, ops, sample=False, route_back=False, gw_route_back=False, burst=None, burst_seed=0,
+                  auto_reconnect=True, channel_policy="increasing"):
     ctx.ev()
-    injections, acks, cbs, err, log, excs = run_history(kind, ops, route_back, gw_route_back, burst, burst_seed)
+    injections, acks, cbs, err, log, excs = run_history(kind, ops, route_back, gw_route_back, burst, burst_seed, auto_reconnect,
+                                                        channel_policy)
     if err is not None:
         ctx.inconclusive(f"{kind} history did not finish: {err}")
         return
@@ -394,6 +430,21 @@ def judge_history(ctx, kind, profile, ops, sample=False, route_back=False, gw_ro
         ctx.count("loop_exceptions_recorded", len(excs))
     epochs = max([inj["epoch"] for inj in injections], default=0)
     ctx.count("connection_epochs", epochs)
+    ctx.count(f"histories_channel_ids_{channel_policy}")
+    if not auto_reconnect and kind == "tunnel":
+        ctx.count("histories_tunnel_without_auto_reconnect")
+    frames_so_far = 0
+    marks = {inj["t"]: inj for inj in injections}
+    seen_frames = 0
+    pending = None
+    for t, k, _info in log:
+        if k in ("user_cycle", "user_connect_again", "redundant_start", "heartbeat_restart"):
+            pending = (k, sum(1 for inj in injections if inj["t"] <= t and inj["verdict"] == "E"))
+            if pending[1]:
+                ctx.count(f"{k}_after_frames_{kind}")
+            later = sum(1 for inj in injections if inj["t"] > t)
+            if pending[1] and later:
+                ctx.count(f"frames_after_{k}_{kind}", later)
     if burst:
         ctx.count(f"histories_burst_{burst}_{kind}")
     for inj in injections:
@@ -441,7 +492,8 @@ def judge_history(ctx, kind, profile, ops, sample=False, route_back=False, gw_ro
         seen.add(mech)
         short = [(inj["epoch"], inj["c"], inj["verdict"]) for inj in injections]
         ctx.violation(f"{kind}-{mech}", {"endpoint": kind, "profile": profile, "ops": ops, "detail": detail,
-                                          "route_back": route_back, "gw_route_back": gw_route_back, "burst": burst, "burst_seed": burst_seed,
+                                          "route_back": route_back, "gw_route_back": gw_route_back, "burst": burst, "burst_seed": burst_seed, "auto_reconnect": auto_reconnect,
+                                          "channel_policy": channel_policy,
                                           "frames(epoch,counter,verdict)": short[:400]},
                       f"{kind}: {mech}: {str(detail)[:400]}")
 
@@ -455,7 +507,10 @@ def run(ctx):
                 "wrap_E", "wrap_R", "first_after_reconnect_E", "first_after_reconnect_O", "connection_epochs",
                 "first_after_reconnect_tunnel_rb", "first_after_reconnect_tunnel_hpai", "first_after_reconnect_devconn_rb",
                 "first_after_reconnect_devconn_hpai", "burst_frames_on_first_connect", "burst_frames_on_reconnect",
-                "burst_frames_rb", "burst_frames_hpai", *(f"repeat_255_at_expected_0_{w}_{k}" for w in ("on_fresh_connection", "after_a_lap") for k in KINDS),
+                "burst_frames_rb", "burst_frames_hpai", "histories_tunnel_without_auto_reconnect", "histories_channel_ids_constant", "histories_channel_ids_recycled",
+                "frames_after_user_cycle_tunnel", "frames_after_user_cycle_devconn", "frames_after_user_cycle_devmgmt",
+                "frames_after_user_connect_again_tunnel", "frames_after_redundant_start_devmgmt", "frames_after_heartbeat_restart_tunnel",
+                *(f"repeat_255_at_expected_0_{w}_{k}" for w in ("on_fresh_connection", "after_a_lap") for k in KINDS),
                 *(f"burst_frames_{v}_{k}" for v in "ERO" for k in KINDS),
                 *(f"histories_burst_{b}_{k}" for b in ("same-callback", "call-soon") for k in KINDS))
     rng = ctx.rng
@@ -468,14 +523,18 @@ def run(ctx):
             continue
         # every second block of 12 histories: server frames in one burst with each ConnectResponse
         burst = (None, "same-callback", None, "call-soon")[(i // 12) % 4]
+        # object reuse: every third tunnel history runs without auto-reconnect (the user connects the same object again)
+        auto_reconnect = not (kind == "tunnel" and (i // 3) % 3 == 2)
+        channel_policy = ("increasing", "constant", "recycled")[(i // 5) % 3]
         judge_history(ctx, kind, profile, ops, sample=i < 6, route_back=route_back, gw_route_back=gw_route_back,
-                      burst=burst, burst_seed=i)
+                      burst=burst, burst_seed=i, auto_reconnect=auto_reconnect, channel_policy=channel_policy)
 
 
 def replay(ctx, witness):
     ctx.rule = "replay of one recorded history"
     judge_history(ctx, witness["endpoint"], witness["profile"], witness["ops"],
                   route_back=bool(witness.get("route_back")), gw_route_back=bool(witness.get("gw_route_back")),
-                  burst=witness.get("burst"), burst_seed=witness.get("burst_seed", 0))
+                  burst=witness.get("burst"), burst_seed=witness.get("burst_seed", 0),
+                  auto_reconnect=witness.get("auto_reconnect", True), channel_policy=witness.get("channel_policy", "increasing"))
     ctx.distinct("replay")
     ctx.distinct("replay2")
